@@ -384,6 +384,12 @@ def table_configs(tier):
             out.append(("MVCAPA", n, 1, msl, M, ("dev", 0, (1, 2, 3), 2), pv, PEN_MENU_P1[1:2]))
             out.append(("MVCAPA", n, 1, msl, M, ("dev", 1, (0, 3), 2), pv, PEN_MENU_P1[2:3]))
             out.append(("CAPA", n, 1, msl, M, ("dev", 1, (0, 3), 2), pv, capa_pens[1:2]))
+    # wide dynamic range: one huge saving (4e6) next to ordinary ones (3) -- comparisons must not be made with a tolerance
+    # relative to the running total
+    for n in (6, 7) if tier == "quick" else (6, 7, 8, 9):
+        for msl, M in ((2, 4), (2, n)):
+            out.append(("MVCAPA", n, 1, msl, M, ("dev", 0, (3, 4000000), 2), 1, PEN_MENU_P1[1:2]))
+            out.append(("CAPA", n, 1, msl, M, ("dev", 0, (3, 4000000), 2), 1, capa_pens[1:2]))
     if tier == "thorough":
         for msl, M in ((2, 3), (2, 5), (3, 5)):
             out.append(("MVCAPA", 5, 1, msl, M, ("full", 2), "all", PEN_MENU_P1[1:2]))
